@@ -485,8 +485,8 @@ impl<'a> Runner<'a> {
             "case {case} argv={:?} -> {} out={} err={} trace={}",
             cmd2.argv,
             o.status_str(),
-            norm(self.ctx, &short(&o.out_str(), 300)),
-            norm(self.ctx, &short(&o.err_str(), 300)),
+            short(&norm(self.ctx, &o.out_str()), 300),
+            short(&norm(self.ctx, &o.err_str()), 300),
             tr.iter().map(|(k, d, _)| format!("{k}:{d}")).collect::<Vec<_>>().join(",")
         ));
         if let Some(v) = judge_child(&o, &cmd2.argv, case, tr.len()) {
